@@ -812,6 +812,11 @@ type walkCase struct {
 	Bare      bool                 `json:"bare"`    // no monitors inside: the iterator tree is exactly what Compile builds
 	Calls     [][]explicitCall     `json:"calls"`   // replay: run exactly these call sequences instead of enumerating
 	Corrupt   int                  `json:"corrupt"` // self-test only: 1 = falsify the expectation of the first next edge
+	// AfterFail: when a sequence ends with an Advance that (correctly) returned false, keep calling Next on the
+	// top-level iterator. What an iterator does after a failed Advance is not specified (the compact iterator
+	// stays where it was, others move to the end), so only the envelope common to both is demanded: whatever is
+	// still yielded belongs to the set, lies beyond the last value yielded, increases strictly, and it ends.
+	AfterFail bool `json:"after_fail"`
 }
 
 // enumerate all maximal call sequences of the graph of d up to depth (ends: depth reached or a call returns false).
@@ -1018,6 +1023,9 @@ func runWalkCase(cp *walkCase) vh.Verdict {
 					}
 				}
 			})
+			if p == "" && c.AfterFail && sess.first == nil && top.cur == -1 && made > 0 && path[made-1].adv {
+				p = vh.Catch(func() { afterFailedAdvance(sess, top, topName, topPlain, d, tab) })
+			}
 			if p != "" && sess.first == nil {
 				site := p
 				if i := strings.LastIndex(p, "@"); i >= 0 {
@@ -1068,6 +1076,46 @@ func runWalkCase(cp *walkCase) vh.Verdict {
 		vs = append(vs, v)
 	}
 	return vh.Verdict{OK: false, Key: sigs[0], Msg: describe(vs[0], tab), Obs: vs, Stats: stats}
+}
+
+// afterFailedAdvance: see walkCase.AfterFail.
+func afterFailedAdvance(sess *session, top *monitor, topName string, topPlain interface{}, d []int, tab *table) {
+	prev := -1
+	for _, h := range top.hist {
+		if h.Ok {
+			prev = h.V
+		}
+	}
+	hist := append([]callRes{}, top.hist...)
+	report := func(what string, gotID string) {
+		sess.first = &violation{Node: topName, NodeQ: topPlain, NodeD: d, NodeCall: hist,
+			Want: callRes{Op: "next"}, GotID: gotID, Symptom: "after-failed-advance/" + what,
+			Sig: topName + ": " + top.classes(top.hist) + ", then next -> after-failed-advance/" + what}
+	}
+	for n := 0; ; n++ {
+		if n > len(d)+2 {
+			report("does-not-end", "")
+			return
+		}
+		if !top.inner.Next() {
+			return
+		}
+		v := top.inner.Value()
+		r := tab.rankOf(v)
+		hist = append(hist, callRes{Op: "next", Ok: true, V: r})
+		switch {
+		case r < 0:
+			report("value-not-in-table", fmt.Sprintf("%v", v))
+		case !inSet(d, r):
+			report("value-not-in-set", "")
+		case r <= prev:
+			report("backward", "")
+		}
+		if sess.first != nil {
+			return
+		}
+		prev = r
+	}
 }
 
 func smaller(a, b *violation) bool {
